@@ -9,6 +9,7 @@ package repl
 import (
 	"context"
 	"fmt"
+	"os"
 	"sort"
 	"strings"
 	"testing"
@@ -50,6 +51,7 @@ func TestVerifBoundedSaveLoad(t *testing.T) {
 		{"b1", "true", ""}, {"b0", "false", ""}, 
 		{"s0", `""`, ""}, {"s1", `"abc"`, ""}, {"snl", `"line1\nline2"`, ""}, {"sq", `"say \"hi\" \\ back"`, ""}, {"stab", `"a\tb"`, ""}, {"suni", `"héllo ☃ 日本"`, ""},
 		{"sctl", `"bell\x07end"`, "control-character-escape"},
+		{"sbyte", `"é"[0:1]`, ""}, {"sbytes", `"\xc3\x28\xff"`, ""}, {"slatin", `"caf\xe9"`, ""},
 		{"a0", "[]", ""}, {"a3", "[1, 2.5, \"x\"]", ""}, {"a9", "[1,2,3,4,5,6,7,8,9]", ""}, {"anest", "[[1,2],[3,[4,5]],{\"k\":[6]}]", ""},
 		{"m0", "{}", ""}, {"m2", "{\"a\":1, 2:\"b\"}", ""}, {"m6", "{1:1,2:2,3:3,4:4,5:5,6:6}", ""}, {"mnest", "{\"x\":{\"y\":{\"z\":[1,{\"w\":false}]}}}", ""},
 		{"mkeys", "{1.5:\"f\", true:\"b\", \"s\":\"s\"}", ""},
@@ -192,6 +194,55 @@ func TestVerifBoundedSaveLoad(t *testing.T) {
 		evals++
 		if strings.Contains(f.String(), "long=") || strings.Contains(f.String(), "bigarr=") || !strings.Contains(f.String(), "short=\"abc\"\n") {
 			fail("", fmt.Sprintf("with MaxValueLen=20 the saved file is %q: over-long values must be absent and short ones intact", f.String()))
+		}
+	}
+	// the real auto-save / auto-load path (state file in the current directory, read one line at a time)
+	{
+		dir := t.TempDir()
+		cwd, _ := os.Getwd()
+		if err := os.Chdir(dir); err == nil {
+			for _, tc := range []struct {
+				id    string
+				limit int
+				src   string
+				names []string
+			}{
+				{"", 4000, "a = 1\nlong = \"" + strings.Repeat("x", 3996) + "\"\nz = 2", []string{"a", "long", "z"}},
+				{"", 4000, "a = 1\nfunc big(n) { " + strings.Repeat("n = n + 1; ", 1200) + "n }\nz = 2", []string{"a", "z"}},
+				{"", 0, "a = 1\nhuge = \"" + strings.Repeat("y", 70000) + "\"\nz = 2", []string{"a", "huge", "z"}},
+			} {
+				evals++
+				st := eval.NewState()
+				st.MaxValueLen = tc.limit
+				if _, errs := c14Eval(st, tc.src); len(errs) > 0 {
+					fail("", fmt.Sprintf("auto-save case: cannot evaluate the setup: %v", errs))
+					continue
+				}
+				o := Options{AutoSave: true, AutoLoad: true, MaxValueLen: tc.limit}
+				if err := AutoSave(st, o); err != nil {
+					fail("", "AutoSave: "+err.Error())
+					continue
+				}
+				fr := eval.NewState()
+				fr.MaxValueLen = tc.limit
+				_ = AutoLoad(fr, o)
+				for _, n := range tc.names {
+					w, g := c14Describe(st, "len(str("+n+"))"), c14Describe(fr, "len(str("+n+"))")
+					if w != g {
+						fail(tc.id, fmt.Sprintf("auto-save then auto-load with limit %d: binding %s (setup %.60q...) is %q in the saved session and %q after auto-load", tc.limit, n, tc.src, w, g))
+						break
+					}
+				}
+				if tc.names[0] == "a" && len(tc.names) == 2 {
+					w, _ := c14Eval(st, "println(big(1))")
+					g, _ := c14Eval(fr, "println(big(1))")
+					if w != g {
+						fail(tc.id, fmt.Sprintf("auto-save then auto-load: long named function gives %q after reload, %q before", g, w))
+					}
+				}
+				os.Remove(AutoSaveFile)
+			}
+			_ = os.Chdir(cwd)
 		}
 	}
 	_ = object.NULL
